@@ -4,6 +4,7 @@
 Shared by C04, C05, C06, C07, C09, C13.
 """
 import itertools
+import re
 
 import numpy as np
 
@@ -46,14 +47,16 @@ def is_inplace(line):
 
 
 def twin_line(line):
-    return line.replace("mg.", "np.")
+    # the NumPy twin has no constant flag: `constant=` keywords are dropped
+    return re.sub(r",\s*constant=(True|False|None)", "", line).replace("mg.", "np.")
 
 
 class Setup:
     """symbolic inputs shared by both interpreters"""
 
-    def __init__(self, base_shape, mg, f_ordered=False, ro_base=False):
+    def __init__(self, base_shape, mg, f_ordered=False, ro_base=False, const_base=False):
         self.base_shape = base_shape
+        self.const_base = const_base  # the base tensor is a constant
         self.f_ordered = f_ordered
         self.ro_base = ro_base  # the base tensor wraps natively read-only memory (copy=False)
         self.t = symarr("t", base_shape[::-1]).T if f_ordered else symarr("t", base_shape)
@@ -77,7 +80,7 @@ class Setup:
             ro.flags.writeable = False
             tbase = mg.Tensor(ro, copy=False)
         else:
-            tbase = mg.Tensor(self.t)
+            tbase = mg.Tensor(self.t, constant=True) if self.const_base else mg.Tensor(self.t)
         env = {"mg": mg, "np": np, "t": tbase, "y0": mg.Tensor(self.y0), "yv": mg.Tensor(self.yv),
                "y2": mg.Tensor(self.y2), "k": np.array(self.k, dtype=object), "q": self.q,
                "c1": np.array(self.c1, dtype=object), "c2": np.array(self.c2, dtype=object)}
